@@ -62,7 +62,7 @@ def coq_output(st):
     return "(PDiags [%s])" % "; ".join(coq_diag(d) for d in st["diags"])
 
 
-PKGS = {"pa": 0, "pb": 1, "pc": 2, "pd": 3}
+PKGS = {"pa": 0, "pb": 1, "pc": 2, "pd": 3, "pe": 4}
 
 
 def load_error_text(sc, version):
@@ -184,6 +184,7 @@ def run(c):
         "Str.v models of strings.Split, strings.TrimSpace (all unicode.IsSpace runes as UTF-8 byte patterns), filepath.Base (unix), strconv.Itoa and the %s/%d/%v fragment of fmt.Sprintf (validated only through the correspondence runs)",
         "engine contract assumed, checked empirically against a direct Engine: Run calls RunContext.Report once per report in order; loading with a GroupFilter f yields exactly the reports of the groups accepted by f",
         "harness/cmd/c19 and hooks analyzer.VerifResetGlobals / VerifGlobals (build tag verif)",
+        "Alias.v: memory model of []byte values (buffers, references, in-place overwrite); the classification of the engine's Replacement sites is syntactic ([]byte(E) with E a string literal / a call of a package function declared to return string / a local declared `var x string`), sync.Pool may hand any state to any pass",
         "x/tools singlechecker flag parsing and -fix application are outside the model",
     ]
     c.notes += ["concurrent passes: race freedom / linearizability / loaded-once are proved for all schedules of an interleaving semantics of the regenerated prepareEngine tree (Conc.v); the Go memory model and sync.Mutex/sync.Pool are trusted; real schedules of the 16-goroutine burst are explored in addition",
@@ -212,6 +213,14 @@ def run(c):
                 "Definition gen_prep (g : gstate) (lo : load_outcome) : gstate * prep_result * nat := let o := run_tree gen_prepare_tree false g lo in (po_state o, po_res o, count_loads (po_trace o)).\n")
         ok, out = c.coq_eval("Inst_Stub.v", stub)
         gen_usable = ok
+
+    adapter_keeps = None
+    try:
+        m_keep = re.search(r"gen_adapter_keeps : keep_kind := (\w+)\.", open(os.path.join(c.gen, "Gen_Adapter.v")).read())
+        adapter_keeps = m_keep.group(1) if m_keep else None
+    except OSError:
+        pass
+    c.coverage["adapter_keeps"] = adapter_keeps or "unknown (translator failed): treated as the slice it was handed"
 
     hb = c.build_harness("c19")
     if hb is None:
@@ -398,6 +407,27 @@ def run(c):
             nerr = sum(1 for st in steps if st["err"] and not st["err"].startswith(GOVER))
             if nerr > 1 and not force:
                 c.fail("oracle", "a load failure was reported %d times" % nerr, input=inp, expected="at most once per process", observed=nerr)
+            # []byte values are references: the diagnostics above were read after every pass of the scenario had run;
+            # what pass.Report saw at the time of the call must be the same thing
+            for j, st in enumerate(steps):
+                for d in st["diags"]:
+                    if d.get("at_report") is not None:
+                        c.fail("oracle", "a diagnostic read after the passes differs from what was handed to pass.Report (a text edit still "
+                               "points into memory the engine wrote again for a later file / pass on the pooled runner state)",
+                               input=dict(inp, **{"step": j, "kind": st["kind"], "pkg": st["pkg"], "force_new_engine": bool(fl.get("force"))}),
+                               expected={"as_reported": d["at_report"]}, observed={"read_after_the_passes": {k: v for k, v in d.items() if k != "at_report"}})
+                        break
+            # the engine's side matters to this property only while the adapter keeps the slices it is handed
+            for f in (sc.get("engine_alias") or [])[:2] if adapter_keeps != "KeepCopy" else []:
+                what = {"changed": "a Suggestion.Replacement handed to Report no longer holds the text it held then (the engine wrote its memory again; one RunnerState for all files)",
+                        "overlap": "two Suggestion.Replacement slices handed to Report share memory",
+                        "state-changes-reports": "a directly driven engine reports differently when it is given a RunnerState"}.get(f["kind"], f["kind"])
+                c.fail("oracle", what, input=dict(inp, rules_version=f["version"], pkg=f["pkg"], report=f["a"]),
+                       expected={"text_at_report": f["a"].get("text")}, observed=f)
+            c.coverage["suggestion_slices_examined_for_aliasing"] = c.coverage.get("suggestion_slices_examined_for_aliasing", 0) + sc.get("engine_slices", 0)
+            if sc.get("files_on_state", 0) > 0 and not fl.get("force"):
+                c.coverage["scenarios_with_files_run_after_a_kept_fix"] = c.coverage.get("scenarios_with_files_run_after_a_kept_fix", 0) + 1
+                c.coverage["files_run_after_a_kept_fix"] = c.coverage.get("files_run_after_a_kept_fix", 0) + sc["files_on_state"]
             if any(st.get("panic") for st in steps):
                 c.fail("oracle", "analyzer run panicked", input=inp, observed=[st.get("panic") for st in steps if st.get("panic")][:2])
             for d in (d for st in steps for d in st["diags"]):
@@ -449,6 +479,11 @@ def run(c):
         scs += observe(1, c.seed, first=1000 + k, noreset=True, tag="fresh")
     compare(scs, "main")
     check_e2e()
+    nkept = c.coverage.get("scenarios_with_files_run_after_a_kept_fix", 0)
+    c.obligation("generator:pooled-state", nkept >= 5,
+                 "%d scenarios (cached engine) ran further files / passes on the pooled runner state after a diagnostic with a fix had been kept "
+                 "(%d files); %d suggestion slices of the direct engine examined for aliasing" % (
+                     nkept, c.coverage.get("files_run_after_a_kept_fix", 0), c.coverage.get("suggestion_slices_examined_for_aliasing", 0)))
 
     # every -e text of the pool once (the rule given on the command line has to be the rule that is loaded)
     def e_sweep(seed, tag):
